@@ -153,8 +153,8 @@ class CollationManager(context_class_base):
             except BaseException as err:
                 self._current_lc_collate = None
                 _locale_collate_lock.release()
-                if not isinstance(err, locale.Error):
-                    raise
+                if not isinstance(err, (locale.Error, ValueError)):
+                    raise  # a ValueError is raised for a locale name with a null character
 
                 msg = f"Unsupported collation {self.collation!r}"
                 raise xpath_error('FOCH0002', msg, self.token) from None
